@@ -672,6 +672,23 @@ fn add_path_data<W: Write>(
         }
 
         if i != 0 {
+            // The decoder takes the first duplicate of a catmull segment's
+            // start as split marker so the point needs to be written twice.
+            let is_catmull_start_duplicate = point.path_type.is_none()
+                && control_points[i - 1].pos == point.pos
+                && control_points[i - 1]
+                    .path_type
+                    .is_some_and(|path_type| path_type.kind == SplineType::Catmull);
+
+            if is_catmull_start_duplicate {
+                write!(
+                    writer,
+                    "{x}:{y}|",
+                    x = pos.x + point.pos.x,
+                    y = pos.y + point.pos.y
+                )?;
+            }
+
             write!(
                 writer,
                 "{x}:{y}{count}",
